@@ -202,6 +202,10 @@ def step (d : DS) (line : String) : DS × String :=
     ({ d with ss := ss }, "{\"ok\":true}")
   | ["round", newp] => doRound d (parseList newp)
   | ["reset"] => ({}, "{\"ok\":true}")
+  | "recount" :: rest =>
+    (d, match Lean.Json.parse (" ".intercalate rest) >>= (fun j => do (← DJ.arr j).mapM DJ.tickEv) with
+        | .error e => "{\"ok\":false,\"err\":\"parse\",\"detail\":" ++ (Lean.Json.str e).compress ++ "}"
+        | .ok es => "{\"ok\":true,\"loop\":" ++ DJ.showStats (Sim.statsOf (Sim.loopC es)) ++ ",\"recount\":" ++ DJ.showStats (Sim.statsOf (Sim.recount es)) ++ "}")
   | "scheck" :: which :: rest =>
     let text := " ".intercalate rest
     match Lean.Json.parse text >>= DJ.strace with
